@@ -303,6 +303,15 @@ func (c *c08) entries(dir string, src []byte, ref g7Entry, in string, emit bool,
 			}
 			// every entry point is compared with Bytes above (and Bytes with the model in text_case / dec_obs_ok);
 			// two of the seven, in rotation, also become model cases of their own
+			if e.name == "Writer-two-or-three-Writes" {
+				// the chunks as written: the model's caller (feed) is run on the same chunking
+				pred := "enc_feed_ok"
+				if dir == "dec" {
+					pred = "dec_feed_ok"
+				}
+				r.Case(fmt.Sprintf("%s %s cuts %d %d", name, in, cut1, cut2), fmt.Sprintf("%s [%s; %s; %s] %d %s", pred, coqHex(src[:cut1]), coqHex(src[cut1:cut2]), coqHex(src[cut2:]), got.cls, coqHex(got.out)))
+				continue
+			}
 			c.nEntry++
 			if got.cls == ref.cls && bytes.Equal(got.out, ref.out) && c.nEntry%7 != 0 && (c.nEntry+3)%7 != 0 {
 				continue
@@ -422,6 +431,10 @@ func fillName(fill int, d0 []byte) string {
 // judgeCall: what the x/text contract and C08 together demand of one Transform(dst, src, true).
 func (c *c08) judgeCall(dir string, call g7Call, where string, srcLen, cp, need int, accepted bool, want []byte, exact bool) {
 	r := c.r
+	if call.cls == 0 && accepted && exact && call.nDst >= 0 && call.nDst <= cp && !bytes.Equal(call.dst[:call.nDst], want) {
+		r.Fail("xf/"+dir+"/octets-depend-on-destination", "dst[:nDst] is not what Bytes returns: the result depends on the size or the prior content of the destination", where,
+			fmt.Sprintf("%x", call.dst[:call.nDst]), fmt.Sprintf("%x", want))
+	}
 	switch {
 	case call.cls == 5:
 		r.Fail("xf/"+dir+"/Transform-never-returns", "Transform did not return", where, call.msg, "a value or an error")
@@ -436,10 +449,6 @@ func (c *c08) judgeCall(dir string, call g7Call, where string, srcLen, cp, need 
 	case call.cls == 0 && call.nSrc != srcLen:
 		r.Fail("xf/"+dir+"/nSrc-is-not-len-src", "nil error but not every source octet reported consumed (transform.String loops, Reader and Writer report an inconsistent byte count)",
 			where, fmt.Sprintf("nSrc=%d nDst=%d", call.nSrc, call.nDst), fmt.Sprintf("nSrc=%d", srcLen))
-	case call.cls == 0 && exact && !bytes.Equal(call.dst[:call.nDst], want):
-		cl := "xf/" + dir + "/octets-depend-on-destination"
-		r.Fail(cl, "dst[:nDst] is not what Bytes returns: the result depends on the size or the prior content of the destination", where,
-			fmt.Sprintf("%x", call.dst[:call.nDst]), fmt.Sprintf("%x", want))
 	case call.cls == 1 && accepted:
 		r.Fail("xf/"+dir+"/error-where-Bytes-succeeds", "Transform fails on input Bytes accepts", where, call.msg, fmt.Sprintf("%x", want))
 	case call.cls == 3 && cp >= need+slackGo && accepted && call.nDst == 0 && call.nSrc == 0:
